@@ -174,6 +174,10 @@ def check_parallel_index(ix, rep, prefixes, label, rule='R-INDEX'):
                         for b_ in range(a_ + 1, len(names)):
                             if _lockstep(callee, a_, b_):
                                 same_len.add(frozenset((names[a_], names[b_])))
+            for st in ast.walk(fn):
+                if isinstance(st, ast.Assign) and len(st.targets) == 1 and isinstance(st.targets[0], ast.Name) and isinstance(st.value, ast.ListComp) \
+                        and len(st.value.generators) == 1 and not st.value.generators[0].ifs and isinstance(st.value.generators[0].iter, ast.Name):
+                    same_len.add(frozenset((st.targets[0].id, st.value.generators[0].iter.id)))
             for lp in ast.walk(fn):
                 if not isinstance(lp, ast.For):
                     continue
